@@ -191,8 +191,10 @@ def sc_fa(B, kind):
         fr.own_stats("s%d" % h, s)
         stats.append(s)
     labels = [0, 1, 1]
-    m.fit(list(stats), list(labels))
+    stats_list = list(stats)
+    m.fit(stats_list, labels)
     fr.unchanged("-after-fit")
+    o.claim("labels-unchanged", labels == [0, 1, 1] and len(stats_list) == 3 and all(a is b for a, b in zip(stats_list, stats)))
     fr.not_shared("U", m.U)
     model = m.enroll(stats[1:])
     fr.unchanged("-after-enroll")
@@ -239,7 +241,9 @@ def sc_linear_tx(B, which):
     if which == "wccn":
         m = B.mod("wccn").WCCN()
         B.assume(X[0, 0] - X[2, 0] > 0.1)
-        m.fit(X, [0, 1, 0, 1])
+        labels = [0, 1, 0, 1]
+        m.fit(X, labels)
+        o.claim("labels-unchanged", labels == [0, 1, 0, 1])
     else:
         m = B.mod("whitening").Whitening()
         B.assume(X[0, 0] - X[1, 0] > 0.1)
